@@ -192,6 +192,7 @@ pub fn run(ctx: &Ctx, rep: &mut Report) {
                 {
                     let (t, m, a2, b2, p2) = (tk.clone(), minter.clone(), a.clone(), b.clone(), proxy.clone());
                     let c_twin = twin_of(&u.env, &c);
+                    let c2 = c.clone();
                     let exp = u.seq() + 500;
                     u.setup(move |env| {
                         let cl = InterchainTokenClient::new(env, &t);
@@ -201,6 +202,10 @@ pub fn run(ctx: &Ctx, rep: &mut Report) {
                         // an allowance to the account that shares its 32 bytes with the contract
                         // address c: it is not c's
                         cl.approve(&a2, &c_twin, &300, &exp);
+                        // an approval with a lifetime beyond what the ledger can hold (refused today),
+                        // then its revocation: c has no allowance
+                        let _ = cl.try_approve(&a2, &c2, &1000, &u32::MAX);
+                        cl.approve(&a2, &c2, &0, &0);
                         cl.add_minter(&p2);
                     });
                 }
@@ -301,6 +306,28 @@ pub fn run(ctx: &Ctx, rep: &mut Report) {
                 let over = Ep { valid: false, name: "token.transfer_from", named: b.clone(), counterparty: Some(a.clone()), owner: Some(owner.clone()),
                                 call: { let (s, f) = (b1.clone(), a1.clone()); mk(Rc::new(move |cl, _| flat(cl.try_transfer_from(&s, &f, &s, &301)))) }, other_args: vec![] };
                 matrix(rep, &mut u, &over, &stranger, "allowance-exceeded,recipient=spender");
+                // an allowance granted to the owner is the owner's, not the office's: after a hand-over
+                // the new owner has none
+                {
+                    let ck = u.checkpoint();
+                    let new_owner = u.principal();
+                    let (t, a2, o2, n2) = (tk.clone(), a.clone(), owner.clone(), new_owner.clone());
+                    u.setup(move |env| {
+                        let cl = InterchainTokenClient::new(env, &t);
+                        cl.approve(&a2, &o2, &200, &exp);
+                        cl.transfer_ownership(&n2);
+                    });
+                    u.skip_events();
+                    let (s, f) = (new_owner.clone(), a.clone());
+                    let ep = Ep { valid: false, name: "token.transfer_from", named: new_owner.clone(), counterparty: Some(a.clone()), owner: Some(owner.clone()),
+                                  call: mk(Rc::new(move |cl, _| flat(cl.try_transfer_from(&s, &f, &s, &10)))), other_args: vec![] };
+                    matrix(rep, &mut u, &ep, &stranger, "allowance-to-the-previous-owner,spender-is-the-new-owner");
+                    let (s, f) = (new_owner.clone(), a.clone());
+                    let ep = Ep { valid: false, name: "token.burn_from", named: new_owner.clone(), counterparty: Some(a.clone()), owner: Some(owner.clone()),
+                                  call: mk(Rc::new(move |cl, _| flat(cl.try_burn_from(&s, &f, &10)))), other_args: vec![] };
+                    matrix(rep, &mut u, &ep, &stranger, "allowance-to-the-previous-owner,spender-is-the-new-owner");
+                    u.restore(&ck);
+                }
                 // contract-as-caller
                 let cc = c.clone();
                 proxy_variant(rep, &mut u, "token.transfer", &proxy, &tk, "transfer", &|env, n| (n.clone(), cc.clone(), 5i128).into_val(env), &a);
